@@ -1109,8 +1109,23 @@ let cp_fuzz seed steps walks =
         (* after a crash the recovery procedure's own events must be accepted *)
         (match e with
          | Crash _ when took ->
-           List.iter (fun e' -> if not (step e') && !bad = None then
-                         bad := Some (String.concat " " (List.rev_map cp_show_event !trace) ^ " ?? recovery event rejected: " ^ cp_show_event e')) (recovery_plain !st)
+           (* the repaired recovery with a random split of the replayed segments into pieces (cuts also in the
+              middle of a batch) and fresh table ids; sometimes interrupted by a second crash *)
+           let cuts_tab = Hashtbl.create 8 in
+           let cuts (s : nat) : (nat * bool) list =
+             let k = int_of_nat s in
+             (match Hashtbl.find_opt cuts_tab k with
+              | Some c -> c
+              | None ->
+                let c = List.init (ri 3) (fun _ -> (nat_of_int (ri 4), Random.bool ())) in
+                Hashtbl.add cuts_tab k c; c) in
+           let ids = List.init 12 (fun k -> nat_of_int (!tid + 1 + k)) in
+           tid := !tid + 12;
+           let evs = recovery_full !st cuts ids in
+           let stop = if ri 3 = 0 then ri (List.length evs + 1) else max_int in
+           List.iteri (fun k e' ->
+               if k < stop && not (step e') && !bad = None then
+                 bad := Some (String.concat " " (List.rev_map cp_show_event !trace) ^ " ?? recovery event rejected: " ^ cp_show_event e')) evs
          | _ -> ())
       done
     end
